@@ -2,7 +2,7 @@
 import sys, os
 sys.path.insert(0, os.path.dirname(os.path.abspath(__file__)))
 from common import *
-import qgen
+import qgen, codec
 
 def main():
     c = Check("C15")
@@ -26,6 +26,14 @@ def main():
     out = c.run_coq({"Gen_registry": txt})
     ok, log = out["Gen_registry"]
     c.oblige(f"Gen_registry.registry_keys_unique / every_unit_reenters ({len(rows)} registered units: the (prefix, factors) keys are pairwise distinct and each unit's constructor arguments find it)", ok, log[-800:])
+    # ---------------- tie for the codec model: registry hypotheses, encoder and decoder correspondence
+    cb = []
+    bn = sorted(n for n, o in exp["unit_by_name"].items())
+    for _ in range(60 if quick else 600):
+        k = rng.choice([1, 2, 2, 3])
+        cb.append([[rng.choice([None, None, "kilo", "milli", "kibi", [10, 7], [1, 3]]), rng.choice(bn), rng.choice([1, 1, 2, -1, -2, 3])] for _ in range(k)])
+    cb += [[["kilo", "one", 1]], [[None, "meter", 1], [None, "meter", -1]], [["kilo", "meter", 1], [None, "meter", -1]]]
+    codec.run(c, rng, cb, 60 if quick else 800)
     # ---------------- implementation: every registered object through every codec, plus compound / prefixed units and quantities
     names = sorted(n for n, o in exp["unit_by_name"].items())
     prefixes = sorted(n for n, p in exp["prefix_by_name"].items() if not isinstance(p, dict))
